@@ -27,7 +27,7 @@ func NewTwofish(key, iv []byte) BlockCryptor {
 	return &twofishCrypt{
 		block: block,
 		key:   key,
-		iv:    iv,
+		iv:    append(make([]byte, 0, len(iv)), iv...), // private copy, capacity = length
 	}
 }
 
